@@ -154,6 +154,13 @@ Definition spec_ok (c : scase) : bool :=
   end.
 """
 
+KNOWN_SURFACE = {
+    "module": {"file", "get_field", "has", "marshal", "marshal_text", "set_field", "unmarshal", "unmarshal_text"},
+    "Message": {"Attr", "AttrNames", "Freeze", "Hash", "Message", "SetField", "String", "Truth", "Type"},
+    "RepeatedField": {"Attr", "AttrNames", "Elements", "Freeze", "Hash", "Index", "Iterate", "Len", "SetIndex", "String", "Truth", "Type"},
+    "MapField": {"Entries", "Freeze", "Get", "Hash", "Items", "Iterate", "Len", "SetKey", "String", "Truth", "Type"},
+    "repeated_attrs": {"append"},
+}
 OPS_WITH_J = {"Copy", "GetSub", "GetRM", "GetMM", "SetSub", "AssignRI", "AppendRM", "AssignRM", "SetMM", "AssignMM", "AssignMI", "AssignRMList", "AssignMMDict"}
 ALIAS_OPS = {"SetSub", "AppendRM", "SetMM", "AssignRM", "AssignMM", "AssignRMList", "AssignMMDict"}
 
@@ -405,11 +412,34 @@ def finish_scalar(ctx, refs, scalar_job):
 def run_histories(ctx, hx, dist, cases, terms, refs, scalar_job):
     # ------------------------------------------------------------ probes
     probes = ctx.jsonl([hx, "-mode", "probe"])
+    surface = [p for p in probes if p.get("kind") == "surface"]
+    probes = [p for p in probes if p.get("kind") == "probe"]
+    # the package surface this check knows how to exercise; anything else is a mutation path
+    # (or an access path) outside the tie and is reported as such
+    if not surface:
+        ctx.broken("tie-gap:C20.surface", "the harness did not report the package surface")
+    else:
+        sf = surface[0]
+        for what, got in (("module", sf["module"]), ("Message", sf["Message"]), ("RepeatedField", sf["RepeatedField"]),
+                          ("MapField", sf["MapField"]), ("repeated_attrs", sf["repeated_attrs"])):
+            extra = sorted(set(got) - KNOWN_SURFACE[what])
+            if extra:
+                ctx.broken("tie-gap:C20.surface", "lib/proto %s has members this check does not exercise: %s (add probes for them to harness/cmd/c20 and extend KNOWN_SURFACE)" % (what, extra))
     for p in probes:
         name = p["name"]
         dist["probe " + name + " " + p["out"]] = 1
         if p["out"] == "panic":
             ctx.finding("panic:probe:" + name, "host panic in scenario %s: %s" % (name, p["detail"][:200]), p)
+        elif name.startswith("frozen-path:"):
+            if p["mutated"] or p["out"] != "err":
+                ctx.finding("freeze:direct:path:" + name.split(":", 2)[2], "mutation path %s on a frozen message (view obtained %s the freeze): %s, content changed=%s" % (
+                    name.split(":", 2)[2], name.split(":")[1], p["out"], p["mutated"]), p)
+        elif name.startswith("lookalike:"):
+            if p["out"] != "err":
+                ctx.finding("store:lookalike:" + name.split(":", 1)[1], "a value of a same-named but different message / enum type (another descriptor pool) was not rejected (%s): %s" % (name, p["detail"][:200]), p)
+        elif name == "ext-lossless":
+            if p["out"] != "ok":
+                ctx.finding("post:probe:ext-lossless", "extension values written are not read back: %s" % p["detail"][:200], p)
         elif name.startswith("view-"):
             # a wrapper / view obtained through any access path, before or after the freeze
             if p["mutated"] or p["out"] != "err":
